@@ -1,4 +1,5 @@
-(* Model of pkg/object/dependson/strings.go (FormatObjMetadata,
+(* Model of pkg/object/dependson/strings.go as of the fix "depends-on references
+   that would not read back are rejected" (FormatObjMetadata,
    ParseObjMetadata, FormatDependencySet, ParseDependencySet) and
    annotation.go (ReadAnnotation / WriteAnnotation).  No proofs here. *)
 From Coq Require Import List Bool Arith String Ascii.
@@ -16,21 +17,33 @@ Definition dep_string (i : oid) : string :=
   then o_grp i ++ "/" ++ o_knd i ++ "/" ++ o_name i
   else o_grp i ++ "/namespaces/" ++ o_ns i ++ "/" ++ o_knd i ++ "/" ++ o_name i.
 
-(* FormatObjMetadata: kind and name must not be empty *)
+(* ParseObjMetadata: TrimSpace, Split on "/", 3 or 5 fields, the second of
+   five must be "namespaces"; kind and name may not be empty, nor the
+   namespace segment of the five-field form. *)
+Definition parse_dep (s : string) : result oid :=
+  match split dep_field_separator (trim_space s) with
+  | [g; k; n] =>
+      if String.eqb k "" || String.eqb n "" then Err else Ok (mkOid "" n g k)
+  | [g; nsf; ns; k; n] =>
+      if String.eqb nsf namespaces_field
+      then if String.eqb k "" || String.eqb n "" || String.eqb ns "" then Err
+           else Ok (mkOid ns n g k)
+      else Err
+  | _ => Err
+  end.
+
+(* FormatObjMetadata: kind and name must not be empty; the formatted string
+   must not contain the set separator and must parse back to the same id *)
 Definition format_dep (i : oid) : result string :=
   if String.eqb (o_knd i) "" then Err
   else if String.eqb (o_name i) "" then Err
-  else Ok (dep_string i).
-
-(* ParseObjMetadata: TrimSpace, Split on "/", 3 or 5 fields, the second of
-   five must be "namespaces".  Nothing else is checked. *)
-Definition parse_dep (s : string) : result oid :=
-  match split dep_field_separator (trim_space s) with
-  | [g; k; n] => Ok (mkOid "" n g k)
-  | [g; nsf; ns; k; n] =>
-      if String.eqb nsf namespaces_field then Ok (mkOid ns n g k) else Err
-  | _ => Err
-  end.
+  else
+    let s := dep_string i in
+    if contains annotation_separator s then Err
+    else match parse_dep s with
+         | Ok j => if oid_eqb j i then Ok s else Err
+         | Err => Err
+         end.
 
 Fixpoint format_all (l : list oid) : result (list string) :=
   match l with
